@@ -32,6 +32,7 @@ struct Config {
   bool allow_null = false;         // allocation failure is legitimate (fault plans active)
   int  clock_jitter = 0;           // advance the virtual clock by random amounts between ops (C13, C18)
   bool purge_cb = false;           // check purge ranges against the shadow model (C13)
+  bool tags_in_use = false;        // heaps with heap tags exist: the by-design EFAULT report of an adoption without a tag-matched heap is tolerated
   int  flip_options = 0;           // C13: change run-time options with mi_option_set in the middle of the history (1 in N operations)
   bool threads = false;            // helper-thread ops allowed (remote frees, thread exit)
   size_t max_live_bytes = 192u << 20;
